@@ -14,7 +14,7 @@ CLAIMED = {
              "(-128 corner stated), version 1 is refused by trxcon, every 148/444-octet burst request of trxcon is parsed back by the toolkit to trxcon's values, c_data_rx is in bounds for all octet strings, "
              "burst requests overflow the buffer exactly above 506 octets. Differential correspondence of gen_msg/parse_msg, trx_data_rx_cb, trx_if_handle_phyif_burst_req against the extracted models "
              "(real trx_if.c #included, socketpair, ASan+UBSan, fork per datagram), end-to-end Python->C and C->Python oracles, independent layout transcription; every datagram trxcon emits and every valid Tx message of the toolkit "
-             "also goes through the real DATAInterface.recv_tx_msg() on a socket (receive size, version filter) and must come out as the parser's result; batch passes (results / objects of a whole batch read after the batch) against shared buffers.",
+             "also goes through the real DATAInterface.recv_tx_msg() on a socket (receive size, version filter) and must come out as the parser's result; batch passes (results / objects of a whole batch read after the batch) against shared buffers; header-version negotiation on one long-lived DATAInterface (every request 0..15, repeated: a refused request leaves the version of the link alone).",
         note="tie on a socketpair rather than UDP; GSM_NBITS_*, osmo_load32be, gsm_freq102arfcn come from the system libosmocore which is absent: upstream values assumed in charness/stubs, the hyperframe taken from the vendored GSM_MAX_FN; "
              "the RTS indication is checked by correspondence only.",
         technique="Coq proof about models of data_msg.py and trx_if.c + Gen (reflection; harness including the real trx_if.c) + extracted-model correspondence + end-to-end oracles", ref="7-C04"),
@@ -31,7 +31,7 @@ CLAIMED = {
     "C16": dict(
         text="Both round-trip directions, literal re-encoding for spare-free definitions, canonical re-encoding, bit-field truncation without disturbing neighbours, termination and the error classes are machine-checked "
              "for every well-formed definition of a deep embedding of codec.py (integers of any width/order/sign/offset/multiplier, buffers, spares, MSB/LSB bit-field sets, nested envelopes, sequences, table-shaped presence/length "
-             "callbacks): 26 theorems, no axioms; class defaults regenerated by reflection; random definitions built as real codec objects from the same AST and run against the extracted model (octets, dicts, consumed length, error class).",
+             "callbacks): 26 theorems, no axioms; class defaults regenerated by reflection; random definitions built as real codec objects from the same AST and run against the extracted model (octets, dicts, consumed length, error class); both documented spellings of each bit order ('lsb'/'little', 'msb'/'big').",
         note="only table-shaped callbacks and typed values are modelled; mid-definition fixed-mismatch / short-read results are stated as 'never accepted' rather than exact cause codes; recorded finding c16-varlen-buf-length-not-enforced "
              "(the round-trip theorem carries the matching hypothesis, refuted lemma beside it).",
         technique="Coq deep embedding + inductive fits relation (mutual induction, fuel induction, testbit reasoning) + extraction-based differential correspondence with real codec objects", ref="7-C16"),
@@ -103,7 +103,7 @@ CLAIMED = {
     "C15": dict(
         text="For every list of valid Tx/Rx messages: append writes tag + BE16 length + message records; a full read returns them in order, equal in every carried field; parse_msg(i) is the i-th / None; "
              "skip/count select exactly firstn count (skipn skip ms); for every cut offset k, reading the first k octets returns exactly the messages whose records end at or before k, without exception; "
-             "13 Coq theorems on a model built on the TRXD codec model (C01 round trips reused), tags/HDR_LENGTH regenerated, differential correspondence with the real DATADumpFile (BytesIO and on-disk); appends and reads mixed on one object opened by path, with and without a flush by the caller. Fixed in /repo: 72dc55d (append after a read).",
+             "18 Coq theorems (5 of them over ALL histories of appends / reads by index / full and sliced reads on one capture: the file is always the initial messages followed by every appended one and each read answers for exactly that list) on a model built on the TRXD codec model (C01 round trips reused), tags/HDR_LENGTH regenerated, differential correspondence with the real DATADumpFile (BytesIO and on-disk); appends and reads mixed on one object opened by path, with and without a flush by the caller; whole histories against the extracted history model; append_all fed by a lazy iterable reading the same capture. Fixed in /repo: 72dc55d (append after a read).",
         note="Non-Tx/Rx objects, non-integer skip/count and damage other than a clean cut are outside the theorems (damaged files: correspondence only). On a cut file with a surviving 3-octet header "
              "parse_all(skip = complete+1) returns [] instead of False (stated as c15_truncation_slice; not a violation of the statement).",
         technique="Coq proof over an executable model + Gen by reflection + extracted model vs real class (index, skip/count grid, truncation at every offset, damaged files)", ref="7-C15"),
@@ -159,7 +159,7 @@ CLAIMED = {
     "C13": dict(
         text="Theorems for all messages (fields option-valued): validate() = Ok iff the literal protocol ranges (spec_tx/spec_rx), validation and gen_msg raise nothing but ValueError, gen_msg succeeds iff validate, "
              "send_msg emits exactly one datagram iff validate else none; range constants regenerated by reflection; correspondence on the boundary product of all fields incl. None (complete in thorough) observing "
-             "validate(), gen_msg() and DATAInterface.send_msg() on a fake socket.",
+             "validate(), gen_msg() and DATAInterface.send_msg() on a fake socket; header-version negotiation is driven before the sweeps (it shares the known-version list with validate()).",
         note="values are typed as the toolkit uses them (ints or None, bytearray / array('b') bursts); other Python types are outside the model.",
         technique="Coq proof (case analysis + lia) + Gen by reflection + extracted-model correspondence on the boundary product", ref="7-C13"),
     "C18": dict(
@@ -195,6 +195,15 @@ CLAIMED = {
              "return code (all stated as theorems). Fixed in /repo: c20-len0-vla-overflow (1f7898e), c20-si4-ma-length-octet-overread (d574cef).",
         technique="Coq proof (list induction, invariants, extensionality of the decoder in the octets it reads, explicit buffer model of memcpy / re-decode, small vm_compute sweeps for bit-fields, concrete refutation witnesses) + "
                   "Gen regeneration + extraction-based differential testing against sanitizer-instrumented C (real function texts, real headers, exact-size message buffers, poisoned struct member)", ref="7-C20"),
+    "C17": dict(
+        text="25 Coq theorems: the six reflected PDU definitions of trxd_proto.py equal the documented structures and are well-formed, so C16's round trip applies to v0, v1 and v2 with any number of sub-PDUs; "
+             "layout and round trip of every typed message, burst length by MOD code, NOPE without burst, reserved bits sent as zero and ignored end to end (main header, every sub-PDU header, Tx spare octets, any number of sub-PDUs), wrong version rejected, and acceptance of every v0/v1 "
+             "datagram of the message codec (Model/Trxd.v) with equal field values; two strengthenings refuted with witnesses (= recorded findings). Differential run against the real PDU classes on datagrams of the real message codec (sweep over versions, the documented AND the codec's own burst lengths per modulation, NOPE indications built on objects whose modulation / TSC fields are still set, datagrams kept from long-lived message objects and decoded after the batch), random and damaged datagrams, v2 with 0..N sub-PDUs.",
+        note="Definitions come from Gen by reflection and probing on every run (callback tables over the key fields' value domains); theorems are about the C16 codec model instantiated with them, tied to the source by "
+             "the Gen-equals-spec obligation and a differential run against the real PDU classes."
+             "Recorded findings: c17-mts-0111-unknown, c17-v0tx-legacy-pad-in-hard-bits. Fixed in /repo: c17-v0rx-legacy-gmsk-rejected (932bd90).",
+        technique="Coq proof (reflection-generated deep-embedding terms, per-field step lemmas, vm_compute sweeps for header/MTS packing, reuse of C16 round-trip theorems and C01 layout lemmas) + extracted-model "
+                  "differential correspondence + clause-by-clause implementation oracle", ref="7-C17"),
     "C19": dict(
         text="29 Coq theorems. Helpers: for every FN of the hyperframe and every delta 1..2715648 round trip, decomposition, incremental update incl. wrap, Python = C (model of gsm_fn2gsmtime / gsm_gsmtime2fn / "
              "l1s_time_inc / fn2gsm_time with C integer widths). The firmware's running time (model of the time part of l1_sync, synchronize_tdma, l1s_decode_sb and the fbsb re-initialisation): the invariant 'current_time "
